@@ -508,6 +508,184 @@ def rule_fusing_pairs(rep, repo):
             "%s" % (sorted(skip), sorted(want.values())), loc=loc)
 
 
+def rule_freeze_consistency(rep, repo, tier):
+  """R9: the post-training scale that the freezing utility stores is the
+  scale the quantizer recorded during its last call; the frozen quantizer
+  must then compute exactly what the data-dependent one computed:
+  F_frozen[post_training_scale := recorded scale(x)] == F_auto(x) as normal
+  forms, for the quantizer and for the quantizer the utility's own helper
+  builds."""
+  import itertools
+  from .. import quant
+  from ..pe import ConfigRejected, Obj
+  from ..qir import simplify_app
+  mod = repo.module(quant.QMOD)
+  um = repo.module(UM)
+  unit = "%s::quantized_bits.__call__" % mod.relpath
+  rep.unit(unit)
+  pts = Tensor(("sym", "post_training_scale"), None)
+  bits_r = (2, 4, 8) if tier == "quick" else range(2, 9)
+  int_r = (0, 1) if tier == "quick" else (0, 1, 2, 3)
+  n = 0
+  for bits, integer, kn in itertools.product(bits_r, int_r, (True, False)):
+    kw = dict(bits=bits, integer=integer, keep_negative=kn, alpha="auto_po2")
+    cfg = "quantized_bits(bits=%d,integer=%d,keep_negative=%s,alpha="\
+        "'auto_po2')" % (bits, integer, kn)
+    try:
+      ba = quant.build(repo, "quantized_bits", kw)
+      bf = quant.build(repo, "quantized_bits",
+                       dict(kw, post_training_scale=pts))
+    except ConfigRejected:
+      continue
+    rec = ba.obj.attrs.get("scale")
+    if not isinstance(rec, Tensor):
+      rep.fail("R9", unit, "no-scale-recorded",
+               "%s: no scale recorded by the call" % cfg, instance=cfg)
+      continue
+    n += 1
+    for ph in ("infer", "train"):
+      fa = Fwd(ph)(ba.term)
+      s_rec = Fwd(ph)(rec.term)
+      ff = Fwd(ph, {"post_training_scale": NF.sym("pts")})(bf.term)
+      ff = ff.subst({("sym", "pts"): s_rec}, simplify_app)
+      rep.check(equal_mod_finite(ff, fa), "R9", unit,
+                "frozen-scale-computes-another-function",
+                "%s: with post_training_scale set to the scale recorded by "
+                "the data-dependent call the quantizer computes a different "
+                "function (phase %s)" % (cfg, ph), loc=ba.pe.loc_of(ba.term),
+                instance=cfg)
+  if n < 8:
+    raise AnalysisError("instance-count only %d freeze configurations" % n)
+  # the utility's own helper
+  fn = um.functions.get("clone_model_and_freeze_auto_po2_scale")
+  if fn is None:
+    raise AnalysisError("anchor-missing clone_model_and_freeze_auto_po2_"
+                        "scale")
+  unit2 = "%s::clone_model_and_freeze_auto_po2_scale" % um.relpath
+  rep.unit(unit2)
+  helper = None
+  finder = None
+  for node in ast.walk(fn):
+    if isinstance(node, ast.FunctionDef):
+      if node.name == "_create_quantized_bits_with_post_training_scale":
+        helper = node
+      if node.name == "_find_auto_po2_quantizer":
+        finder = node
+  if helper is None or finder is None:
+    raise AnalysisError("anchor-missing helper functions of the freezing "
+                        "utility")
+  pe, q = quant.construct(repo, "quantized_bits", dict(
+      bits=4, integer=1, alpha="auto_po2", keep_negative=True))
+  out = pe.call(q, [pe.x_input()], {})
+  try:
+    fz = pe.call_func(Func(helper, um, [], helper.name, None, None), [q], {})
+  except PyRaise as e:
+    rep.fail("R9", unit2, "helper-raises", "the helper raises %s" % e,
+             loc=um.loc(helper))
+    fz = None
+  if fz is not None:
+    ok = isinstance(fz, Obj) and fz.cls.name == "quantized_bits"
+    same_scale = ok and isinstance(fz.attrs.get("post_training_scale"),
+                                   Tensor) and Fwd()(
+        fz.attrs["post_training_scale"].term) == Fwd()(
+            q.attrs["scale"].term)
+    rep.check(same_scale, "R9", unit2, "frozen-scale-is-not-recorded-scale",
+              "the helper builds %r with post_training_scale %s; expected a "
+              "quantized_bits whose post_training_scale is the scale "
+              "recorded by the original quantizer" %
+              (fz, fz.attrs.get("post_training_scale")
+               if isinstance(fz, Obj) else None), loc=um.loc(helper))
+    if same_scale:
+      pe.rand_counter = 0
+      o2 = pe.call(fz, [pe.x_input()], {})
+      rep.check(equal_mod_finite(Fwd()(o2.term), Fwd()(out.term)), "R9",
+                unit2, "frozen-quantizer-differs",
+                "the quantizer built by the helper computes a different "
+                "function than the original on the tensor the scale came "
+                "from", loc=um.loc(helper))
+    rep.check(pe.call_func(Func(helper, um, [], helper.name, None, None),
+                           [None], {}) is None, "R9", unit2,
+              "helper-none", "the helper must return None for a layer "
+              "without an auto_po2 quantizer", loc=um.loc(helper))
+  # the per-class creators put the frozen quantizer's config under the key
+  # of the quantizer that can carry an auto_po2 scale for that class, and
+  # build that class
+  want_key = {"QConv2D": "kernel_quantizer", "QDense": "kernel_quantizer",
+              "QDepthwiseConv2D": "depthwise_quantizer",
+              "QBatchNormalization": "inverse_quantizer"}
+  creators = {n.name: n for n in ast.walk(fn)
+              if isinstance(n, ast.FunctionDef) and
+              n.name.startswith("_create_") and n.name.endswith("_layer")}
+  built = []
+  for cname, key in sorted(want_key.items()):
+    recorder = lambda pe_, a, k, cname=cname: built.append((cname, k)) or \
+        Mock("new " + cname, {})
+    hits = []
+    for fname, node in sorted(creators.items()):
+      if fname == "_create_other_layer":
+        continue
+      called = {x.func.id for x in ast.walk(node) if isinstance(
+          x, ast.Call) and isinstance(x.func, ast.Name)}
+      if cname not in called:
+        continue
+      hits.append(fname)
+      ci = repo.classes.get({"QConv2D": "qkeras.qconvolutional.QConv2D",
+                             "QDense": "qkeras.qlayers.QDense",
+                             "QDepthwiseConv2D":
+                             "qkeras.qconvolutional.QDepthwiseConv2D",
+                             "QBatchNormalization":
+                             "qkeras.qnormalization.QBatchNormalization"}[
+                                 cname])
+      params = [p_ for p_, _ in ci.init_params()[0]] if ci else []
+      cfg_in = {p_: {"class_name": "quantized_bits", "config": {"old": p_}}
+                for p_ in params if p_.endswith("_quantizer")}
+      fq = Mock("frozen", {"get_config": lambda pe_, a, k: {"frozen": True}})
+      pc = PE(repo, module_overrides={um.name: {cname: recorder}})
+      del built[:]
+      try:
+        pc.call_func(Func(node, um, [], fname, None, None), [cfg_in, fq], {})
+      except PyRaise as e:
+        rep.fail("R9", unit2, "creator-raises:" + cname, "%s raises %s" %
+                 (fname, e), loc=um.loc(node))
+        continue
+      kw = built[0][1] if built else {}
+      changed = sorted(k_ for k_, v_ in kw.items() if isinstance(v_, dict)
+                       and v_.get("config") == {"frozen": True})
+      rep.check(bool(built) and changed == [key], "R9", unit2,
+                "frozen-config-under-wrong-key:" + cname,
+                "%s builds %s with the frozen quantizer under %s; expected "
+                "exactly %s" % (fname, built[0][0] if built else None,
+                                changed, [key]), loc=um.loc(node))
+    rep.check(len(hits) == 1, "R9", unit2, "no-creator:" + cname,
+              "creators that build %s: %s (expected exactly one)" %
+              (cname, hits), loc=um.loc(fn))
+  # _find_auto_po2_quantizer: the unique auto_po2 quantizer, else raise
+  qa = Mock("qa", {"alpha": "auto_po2"})
+  qb = Mock("qb", {"alpha": None})
+  qc = Mock("qc", {})
+  pf = PE(repo)
+  call = lambda lyr: pf.call_func(Func(finder, um, [], finder.name, None,
+                                       None), [lyr], {})
+  try:
+    r1 = call(Mock("l1", {"name": "l1", "quantizers": [qb, qa, qc, None]}))
+    r2 = call(Mock("l2", {"name": "l2", "quantizers": [qb, qc]}))
+    r3 = call(Mock("l3", {"name": "l3"}))
+    rep.check(r1 is qa and r2 is None and r3 is None, "R9", unit2,
+              "finder-result", "_find_auto_po2_quantizer returns %s / %s / "
+              "%s" % (r1, r2, r3), loc=um.loc(finder))
+  except PyRaise as e:
+    rep.fail("R9", unit2, "finder-raises", "raises %s" % e,
+             loc=um.loc(finder))
+  try:
+    call(Mock("l4", {"name": "l4", "quantizers": [qa, Mock(
+        "qa2", {"alpha": "auto_po2"})]}))
+    rep.fail("R9", unit2, "two-auto-po2-accepted",
+             "a layer with two auto_po2 quantizers is accepted (only one "
+             "can be frozen per layer)", loc=um.loc(finder))
+  except PyRaise:
+    rep.ok("R9")
+
+
 def run(rep, repo, tier):
   rep.trusted.append("Keras weight order of the parent layer classes "
                      "(table in the rule); set_weights stores what it is "
@@ -521,6 +699,8 @@ def run(rep, repo, tier):
   rule_pairing(rep, repo)
   rule_frozen_scale(rep, repo)
   rule_fusing_pairs(rep, repo)
+  rule_freeze_consistency(rep, repo, tier)
+  rep.require_instances("R9", 25)
   rep.require_instances("R8", 2)
   rep.require_instances("R7", 30)
   rep.require_instances("R1", 3)
